@@ -271,8 +271,29 @@ Section Oracle.
   Definition paths_of (k : contract) : nat :=
     List.length (filter (fun i => Z.eqb (cid i) (cid k)) all_contracts).
 
+  (** the postcondition evaluations, as they happened, follow the order of the effective list (inherited before own,
+      nearest decorator first): with the re-evaluation of a violated condition for its message taken off the end, they
+      are a prefix of the list *)
+  Fixpoint strip_reeval (l : list Z) : list Z :=
+    match l with
+    | [] => []
+    | x :: r => match r with
+                | [y] => if Z.eqb x y then [x] else [x; y]
+                | _ => x :: strip_reeval r
+                end
+    end.
+  Fixpoint is_prefix_ids (a b : list Z) : bool :=
+    match a, b with
+    | [], _ => true
+    | x :: r, y :: r' => Z.eqb x y && is_prefix_ids r r'
+    | _ :: _, [] => false
+    end.
+  Definition post_order_ok (t : list event) : bool :=
+    is_prefix_ids (strip_reeval (cond_ids RPost t)) (map cid post).
+
   Definition spec_C16 (t : list event) (r : pv + exn) : bool :=
     phases_ok 0 false t
+    && post_order_ok t
     (* every condition at most once per check (and inheritance path); a lambda once more for its message;
        invariants twice (before, after) *)
     && forallb (fun k => Nat.leb (count_cond (cid k) t)
